@@ -21,6 +21,7 @@ def fams_c18(tier, seed):
             Family("full3", "exh", FULL, "0,1,2,u", depth=3, configs=QCFG),
             Family("async5", "exh", "SyvABMc", "0,1", depth=5, configs=("l:a", "b:s")),
             Family("stream6", "exh", "Myvc", "0,1", depth=6, configs=("w:s",)),
+            Family("pending5", "exh", "PQyv", "0,1", depth=5, configs=("w:a",)),     # up to four waiters per side, cancel any, then serve
             Family("rand40", "rand", FULL + "w", "0,1,2,u", length=40, n=4000, configs=("w:a", "z:s", "l:s", "p:s")),
         ]
     return [
@@ -29,6 +30,7 @@ def fams_c18(tier, seed):
         Family("async6", "exh", "SyvABMc", "0,1,2", depth=6, configs=("l:a", "b:s", "w:a")),
         Family("stream7", "exh", "Myvc", "0,1,u", depth=7, configs=("w:s", "l:a")),
         Family("timed5", "exh", "TUyvAc", "0,1", depth=5, configs=("w:s", "l:a")),
+        Family("pending7", "exh", "PQyv", "0,1", depth=7, configs=("w:a", "l:s")),
         Family("rand60", "rand", FULL + "w", "0,1,2,u", length=60, n=40000, configs=ALLCFG),
     ]
 
@@ -340,6 +342,29 @@ def integrity_check(tier, seed, stats):
     return []
 
 
+def pin_check(tier, seed, stats):
+    """C07/C15: rustc's verdict on `Unpin` for the handles, the futures and the stream (T = u8, T = PhantomPinned) against the
+    structural model (AutoTrait.verdictUnpin over the extracted fields), and the property itself: a future is never Unpin."""
+    import subprocess, os
+    from vlib import HARNESS, LEAN, ENV, sh
+    sh(["lake", "build", "traittable"], cwd=LEAN)
+    model = subprocess.run([os.path.join(LEAN, ".lake", "build", "bin", "traittable"), "unpin"], stdout=subprocess.PIPE, text=True, env=ENV).stdout.strip().split("\n")
+    p = subprocess.run([os.path.join(HARNESS, "target", "release", "probes"), "unpin"], stdout=subprocess.PIPE, stderr=subprocess.STDOUT, text=True, env=ENV)
+    rustc = p.stdout.strip().split("\n")
+    stats["evaluations"] += len(rustc)
+    stats["programs"] += 1
+    stats["samples"].append({"unpin probes": rustc[4:6]})
+    stats["nontrivial"] |= {l.encode() for l in rustc}
+    wrong = [f"rustc: {l.split(' ')[0]}<T> is Unpin (T: Unpin = {l.split(' ')[1]}): safe code may move it between polls while the wait list holds its address"
+             for l in rustc if l.split(" ")[0] in ("SendFuture", "ReceiveFuture") and l.endswith(" unpin true")]
+    if wrong:
+        return [{"kind": "probe", "seed": seed, "failures": wrong[:4]}]
+    if p.returncode != 0 or len(model) != 14 or model != rustc:
+        diff = [f"model: {m} | rustc: {r}" for m, r in zip(model, rustc) if m != r][:6]
+        return [{"kind": "probe", "seed": seed, "failures": diff or [f"probes unpin exited {p.returncode} / table sizes {len(model)} vs {len(rustc)}: {p.stdout[-300:]}"]}]
+    return []
+
+
 def probe_check(tier, seed, stats):
     import subprocess, os
     from vlib import HARNESS, LEAN, ENV, sh
@@ -620,11 +645,11 @@ EXTRA_FILES = {
     "C18": ["Kanal/Bridge.lean", "Kanal/Bridge2.lean"],                                                                  # Fine read sequentially = Spec.step
     "C03": ["Kanal/Sections.lean", "Kanal/SpecSections.lean"],
     # translated signal.rs / mutex.rs / spin_cond conform to SigM / MutexM (TieProto), and conformance is adequate (ProtoSim)
-    "C07": ["Kanal/TieProto.lean", "Kanal/ProtoSim.lean", "Kanal/TiePaths.lean"],
+    "C07": ["Kanal/TieProto.lean", "Kanal/ProtoSim.lean", "Kanal/TiePaths.lean", "Kanal/Props/C07Pin.lean"],   # + the futures are !Unpin
     "C17": ["Kanal/TieProto.lean", "Kanal/ProtoSimMutex.lean", "Kanal/TiePaths.lean"],
     "C13": ["Kanal/TieProto.lean"],            # wait_timeout / is_terminated
     "C16": ["Kanal/TieProto.lean"],            # poll, will_wake, register_waker, the constructors (a signal starts LOCKED)
-    "C15": ["Kanal/TieProto.lean"],            # async_blocking_wait in Drop
+    "C15": ["Kanal/TieProto.lean", "Kanal/Props/C07Pin.lean"],   # async_blocking_wait in Drop; Drop is what un-registers a future: it cannot be moved before
     "C14": ["Kanal/Props/C14Fine.lean"],
     "C04": ["Kanal/TiePtr.lean"],              # pointer.rs translated: its operation lists compute PtrM's functions for every size, memory and word
     "C05": ["Kanal/TiePtr.lean"],              # … and a value passed by value is consumed exactly once (moved or bit-copied + forgotten)
@@ -632,6 +657,9 @@ EXTRA_FILES = {
     "C08": ["Kanal/Props/RealTime.lean"],      # at every instant of an execution: accepted-and-unblocked minus delivered <= n; rendezvous
     "C10": ["Kanal/Props/RealTime.lean"],      # after close has returned: nothing delivered, every later call answers closed       # realtime variants on the translated code: one tryLock, busy => not done, never waits   # interleaving machine: the logical state moves by whole critical sections = Chan functions
 }
+for _pid in ("C07", "C15"):
+    PROPS[_pid]["extra_checks"] = list(PROPS[_pid].get("extra_checks", [])) + [pin_check]
+    PROPS[_pid]["lean_targets"] = list(PROPS[_pid].get("lean_targets", [])) + ["traittable"]
 for _pid, _files in EXTRA_FILES.items():
     PROPS[_pid]["props_files"] = list(PROPS[_pid]["props_files"]) + _files
     PROPS[_pid]["lean_targets"] = list(PROPS[_pid].get("lean_targets", [])) + [f[:-5].replace("/", ".") for f in _files]
